@@ -258,6 +258,37 @@ def r195(ctx, fx):
     if reads_stack:
         ctx.finding(rid, key, "stepOut reads its target from the top of the stack: after a `pha` in the subroutine that is not the return address and the machine "
                     "runs to the end of the test", sout.where)
+    # the loop of stepOut pairs calls with returns; how far the stack has grown or shrunk says nothing about the call depth (the subroutine may hold
+    # data of its own on the stack when the request arrives, and pop it before it calls on)
+    key = "step_out|call-depth"
+    loops = [n for n in lib.hwalk(sout.hir["body"]) if n.get("k") == "loop"]
+    opcodes = set()
+    sp_in_loop = []
+    for lp in loops:
+        for n in lib.hwalk(lp):
+            if n.get("k") == "match":
+                for a in n["arms"]:
+                    for q in lib.hwalk(a["pat"]):
+                        if q.get("k") == "lit" and isinstance(q.get("v"), int):
+                            opcodes.add(q["v"])
+                    g = a.get("guard")
+                    if g is not None and "get_stack_pointer" in repr(lib.hdesc(g)):
+                        sp_in_loop.append(a.get("ln") or n.get("ln"))
+            if n.get("k") == "if" and "get_stack_pointer" in repr(lib.hdesc(n["cond"])):
+                sp_in_loop.append(n.get("ln"))
+            if n.get("k") == "binary" and n.get("op") in ("Eq", "Ne") and isinstance(lib.hlit(n["r"]), int) and "opcode" in repr(lib.hdesc(n["l"])):
+                opcodes.add(lib.hlit(n["r"]))
+    ctx.inst(rid, key, sample={"opcodes_distinguished_in_the_loop": sorted(opcodes), "stack_pointer_tests_in_the_loop": len(sp_in_loop)})
+    if not loops:
+        ctx.fail_closed(rid, "step_out has no loop")
+    else:
+        if not {0x20, 0x60} <= opcodes:
+            ctx.finding(rid, key, "stepOut does not tell `jsr` ($20) and `rts` ($60) apart while it runs: the first `rts` of a subroutine called on the way is taken "
+                        "for the return of the subroutine the machine was halted in", sout.where)
+        if sp_in_loop:
+            ctx.finding(rid, key + "|stack-pointer", "stepOut decides by the stack pointer when it is done: a subroutine that was halted with data of its own on the stack "
+                        "(`pha`), pops it and then calls another one is left at that inner `rts` — the stack is above the remembered level while the call "
+                        "depth is unchanged", "%s:%s" % (sout.file, sp_in_loop[0]))
     sb = [f for f in fx.all_fns("mos") if f.path.endswith("::set_breakpoints") and "test_runner" in f.path and f.d.get("hir")]
     key = "TestRunnerAdapter::set_breakpoints|per-source"
     ctx.inst(rid, key)
